@@ -644,6 +644,7 @@ func ruleC18(c *Check) {
 	c.ownerIsSigner("C18")
 	c.recordKeysFromMessage("C18.9")
 	c.clientRecovery("C18.10")
+	c.clientContextRecovery("C18.10")
 	c.idInputsPresent("C18.11")
 	c.createRejectsBeforeStore("C18.12")
 	// records of different roles live under different keys: a queue entry is always written and removed together with
